@@ -18,7 +18,7 @@
    called outside a message parse; that every field of a *message* is dereferenceable (proved for
    the leaves only; C05 covers it by oracle); these the correspondence + crash oracle cover.
    Concurrency: model functions are pure; data races are runtime behaviour outside the model. *)
-From Sipsp Require Import Harness RunLemmas Safe SafeLeaf SafeMore SafeMsg Resume Classify URIOffsets URIViews URILossless.
+From Sipsp Require Import Harness RunLemmas Safe SafeLeaf SafeMore SafeMsg Again Resume Classify URIOffsets URIViews URILossless.
 Theorem C04_safety_rule : forall (St : Type) (iter : list byte -> list byte -> N -> St -> ires St)
   (P : list byte -> list byte -> N -> St -> Prop) (Q : list byte -> list byte -> N -> N -> err -> St -> Prop),
   (forall pre rest i s, P pre rest i s ->
@@ -153,5 +153,17 @@ Theorem C04_message_every_schedule : forall flags b cuts k m, sorted_from (N.to_
   | _ => False
   end.
 Proof. exact message_safe_chunked. Qed.
+(* an object already finished, called again without Reset: every value parser answers (offs, ok)
+   and leaves the object alone; the message parser reports a caller bug at offs *)
+Theorem C04_finished_value_called_again :
+  (forall buf offs s, ci_parsed s = true -> parse_callid buf offs s = Done offs EOk s) /\
+  (forall buf offs s, cs_parsed s = true -> parse_cseq buf offs s = Done offs EOk s) /\
+  (forall buf offs s, ui_parsed s = true -> parse_uint buf offs s = Done offs EOk s) /\
+  (forall h buf offs s, fb_parsed s = true -> parse_nameaddr h buf offs s = Done offs EOk s) /\
+  (forall flags buf offs s, tp_state s = PFIN -> parse_tokparam flags buf offs s = Done offs EOk s).
+Proof. exact (conj callid_again (conj cseq_again (conj uint_again (conj nameaddr_again tokparam_again)))). Qed.
+Theorem C04_finished_message_called_again : forall flags buf offs m, msg_parsed m = true ->
+  parse_sipmsg flags buf offs m = Done offs EBug (m <| m_buflen := nnat (length buf) |> <| m_state := MErr |>).
+Proof. exact message_again. Qed.
 Print Assumptions C04_message.
 Print Assumptions C04_message_every_schedule.
